@@ -531,7 +531,10 @@ fn eager_line(rng: &mut Rng) -> Scenario {
         ClientOp::Line { session: 0, src: "nowait>[z, 7]".to_string() },
         // a second session lets the first come to rest; the first is judged from the process table
         ClientOp::Line { session: 1, src: format!("{}, w = [800, 0] spin", super::c04::SPIN) },
-        // and from its variables, read without resuming it
+        // a line entered the ordinary way (the client waits for its result): it runs after whatever
+        // of the earlier lines was still waiting or running
+        ClientOp::Line { session: 0, src: "[z, a, b, c]".to_string() },
+        // and the variables, read once that line has answered
         ClientOp::Vars { session: 0 },
     ];
     Scenario {
@@ -542,7 +545,7 @@ fn eager_line(rng: &mut Rng) -> Scenario {
         timing: false,
         io: false,
         fixed_faults: Default::default(),
-        expect: serde_json::json!({ "eager": [format!("[100, {a}, {b}, {m}]"), "[100, 7]"], "eager_vars": { "z": "100", "a": a.to_string(), "b": b.to_string(), "c": m.to_string() } }),
+        expect: serde_json::json!({ "eager": [format!("[100, {a}, {b}, {m}]")], "eager_vars": { "z": "100", "a": a.to_string(), "b": b.to_string(), "c": m.to_string() } }),
         shape: h.0,
         est_len: 150,
         min_quantum: 0,
@@ -887,9 +890,9 @@ impl Property for C11 {
             return v;
         }
         if let Some(legal) = scn.expect.get("eager").and_then(|x| x.as_array()) {
-            // a line entered while the previous one still runs: the early line is either not started
-            // (the session ends with the running line's value) or, if the running line had finished
-            // by then, evaluated after it; the running line must not be damaged
+            // a line entered while the previous one still runs waits until the session process sleeps
+            // and runs then: every line takes effect, in the order entered; the last line (entered the
+            // ordinary way) reads back what the running line bound
             let got = r.procs.get("R0").cloned().unwrap_or_default();
             if !legal.iter().any(|l| l.as_str() == Some(got.as_str())) {
                 v.push(Violation::new("C11", "line-value", "running-line-damaged-by-early-line", format!("the session process ended with {got}; the line that was running when the next one was entered yields {}, as the same steps do as one program", legal[0]), r.steps));
